@@ -565,6 +565,8 @@ func c08CacheCoherence(c *Ctx) {
 	}
 	c.needFixture("cache-coherence")
 	c08AtomicCheckThenStore(c)
+	c08SharedErrorImmutable(c)
+	c08PrefilledSliceComplete(c)
 }
 
 // l1HandlerIndexEveryEntry: the message-hash → tx-hash entry is written / removed for every L1 handler transaction of the
@@ -776,4 +778,131 @@ func valueDerivesFrom(v ssa.Value, src ssa.Value, d int) bool {
 		}
 	}
 	return false
+}
+
+
+// c08SharedErrorImmutable: the protocol error values of the RPC layer (rpccore.Err…, package-level *jsonrpc.Error) are shared
+// by every handler of every API version. A handler that adapts an error for its own reply must build a new value
+// (CloneWithData, a literal): a store through a *jsonrpc.Error it did not create rewrites the shared value for the whole
+// process — seeded change C08-J turns every later CLASS_HASH_NOT_FOUND of v0.8/v0.9/v0.10 into CONTRACT_NOT_FOUND after one
+// getClassAt on a contract whose class definition is missing.
+func c08SharedErrorImmutable(c *Ctx) {
+	p := c.P
+	n, bad := 0, 0
+	for _, fn := range p.sortedFuncs() {
+		pr := pkgRelOf(fn)
+		if !(strings.HasPrefix(pr, "rpc") || pr == "jsonrpc") || fn.Origin() != nil || len(fn.Blocks) == 0 || strings.HasSuffix(p.Pos(fnPos(fn)), "_test.go") {
+			continue
+		}
+		allInstrsOne(fn, func(in ssa.Instruction) {
+			st, ok := in.(*ssa.Store)
+			if !ok {
+				return
+			}
+			fa, ok := st.Addr.(*ssa.FieldAddr)
+			if !ok || !isNamed(fa.X.Type(), "jsonrpc", "Error") {
+				return
+			}
+			n++
+			fresh := false
+			switch x := fa.X.(type) {
+			case *ssa.Alloc:
+				fresh = true
+			case *ssa.Call:
+				if cal := x.Call.StaticCallee(); cal != nil && (strings.HasPrefix(cal.Name(), "Clone") || strings.HasPrefix(cal.Name(), "Err") || strings.HasPrefix(cal.Name(), "New") || strings.HasPrefix(cal.Name(), "new")) {
+					fresh = true
+				}
+			case *ssa.Parameter:
+				// a method of Error mutating its receiver copy (CloneWithData works on a copy): receiver only
+				fresh = fn.Signature.Recv() != nil && x == fn.Params[0] && false
+			}
+			if !fresh {
+				bad++
+				c.viol("shared-error-immutable", qname(fn)+": "+term(st.Addr), p.Pos(posOf(in, fn)), "a field of a *jsonrpc.Error that this function did not create is overwritten: the protocol error values are shared package-level pointers, the change is visible to every later request of every API version")
+			}
+		})
+	}
+	if bad == 0 {
+		c.ok("shared-error-immutable", "rpc, jsonrpc", "", fmt.Sprintf("%d stores to jsonrpc.Error fields, all on values created in the storing function", n))
+	}
+}
+
+
+// c08PrefilledSliceComplete: a response list that is allocated with its final LENGTH (make([]T, n)) and filled by a running
+// index must be filled on every iteration: when the store is skipped for some entries (a filter), the untouched tail keeps
+// zero values and the reply contains fabricated entries ({"address":"0x0","class_hash":"0x0"} — seeded change C08-I). A
+// filtered list is built with append on a zero-length slice, or re-sliced to the number of entries written.
+func c08PrefilledSliceComplete(c *Ctx) {
+	p := c.P
+	n := 0
+	for _, fn := range p.sortedFuncs() {
+		pr := pkgRelOf(fn)
+		if !strings.HasPrefix(pr, "rpc/") || fn.Origin() != nil || len(fn.Blocks) == 0 || strings.HasSuffix(p.Pos(fnPos(fn)), "_test.go") {
+			continue
+		}
+		allInstrsOne(fn, func(in ssa.Instruction) {
+			ms, ok := in.(*ssa.MakeSlice)
+			if !ok {
+				return
+			}
+			if k, isK := ms.Len.(*ssa.Const); isK && k.Value != nil && k.Int64() == 0 {
+				return
+			}
+			refs := ms.Referrers()
+			if refs == nil {
+				return
+			}
+			var stores []ssa.Instruction
+			resliced := false
+			for _, r := range *refs {
+				switch x := r.(type) {
+				case *ssa.IndexAddr:
+					if _, isPhi := x.Index.(*ssa.Phi); !isPhi {
+						continue // range index or constant: one slot per iteration by construction
+					}
+					if rr := x.Referrers(); rr != nil {
+						for _, u := range *rr {
+							if st, isSt := u.(*ssa.Store); isSt && st.Addr == ssa.Value(x) && inSameLoop(st.Block(), st.Block()) {
+								stores = append(stores, st)
+							}
+						}
+					}
+				case *ssa.Slice:
+					if x.High != nil {
+						resliced = true
+					}
+				}
+			}
+			if len(stores) == 0 {
+				return
+			}
+			n++
+			bad := ""
+			for _, st := range stores {
+				for _, fct := range factsAt(st) {
+					if allowedLoopFact(fct) {
+						continue
+					}
+					// conditions of enclosing code outside the loop do not skip iterations
+					if iff := fct.Cond; iff != nil {
+						if inst, isInst := iff.(ssa.Instruction); isInst {
+							if !inSameLoop(inst.Block(), st.Block()) {
+								continue
+							}
+							// a condition decided before the list was allocated (an enclosing loop's filter) selects whether
+							// the list exists at all, not which of its slots are filled
+							if inst.Block().Dominates(ms.Block()) {
+								continue
+							}
+						}
+					}
+					bad = fct.String()
+				}
+			}
+			c.check(bad == "" || resliced, "prefilled-slice-complete", qname(fn)+": "+term(ms), p.Pos(posOf(ms, fn)), "every iteration fills its slot (or the list is re-sliced to what was written)", "a list allocated with its final length is filled only under "+bad+" and never re-sliced: skipped entries stay zero values in the reply")
+		})
+	}
+	if n == 0 {
+		c.und("prefilled-slice-complete", "rpc", "", "no index-filled preallocated list found")
+	}
 }
